@@ -533,6 +533,22 @@ func (e *Env) Verify(v *VerifyReq) (out []Verified, err error) {
 			err = fmt.Errorf("PANIC in verifier: %v", p)
 		}
 	}()
+	vv := *v
+	if vv.Roots == nil {
+		vv.Roots = []*x509.Certificate{e.Root.Cert}
+	}
+	if vv.PGP == nil {
+		for _, k := range SigningKeys {
+			if ent := e.Pgp[k]; ent != nil {
+				vv.PGP = append(vv.PGP, ent)
+			}
+		}
+	}
+	return VerifyRaw(&vv)
+}
+
+// VerifyRaw is Verify without defaults and without panic recovery (Roots and PGP as given).
+func VerifyRaw(v *VerifyReq) (out []Verified, err error) {
 	f, err := os.Open(v.Path)
 	if err != nil {
 		return nil, err
@@ -544,22 +560,12 @@ func (e *Env) Verify(v *VerifyReq) (out []Verified, err error) {
 	}
 	opts := signers.VerifyOpts{FileName: v.Path, Compression: compression, NoChain: v.NoChain, NoDigests: v.NoDigests, Content: v.Content}
 	roots := v.Roots
-	if roots == nil {
-		roots = []*x509.Certificate{e.Root.Cert}
-	}
 	opts.TrustedX509 = roots
 	opts.TrustedPool = x509.NewCertPool()
 	for _, c := range roots {
 		opts.TrustedPool.AddCert(c)
 	}
 	opts.TrustedPgp = v.PGP
-	if opts.TrustedPgp == nil {
-		for _, k := range SigningKeys {
-			if ent := e.Pgp[k]; ent != nil {
-				opts.TrustedPgp = append(opts.TrustedPgp, ent)
-			}
-		}
-	}
 	mod := signers.ByMagic(fileType)
 	if mod == nil {
 		mod = signers.ByFileName(v.Path)
@@ -578,6 +584,9 @@ func (e *Env) Verify(v *VerifyReq) (out []Verified, err error) {
 		}
 		sigs, err = mod.VerifyStream(r, opts)
 	} else {
+		if mod.Verify == nil {
+			return nil, errors.New("module cannot verify")
+		}
 		if opts.Compression != magic.CompressedNone {
 			return nil, errors.New("cannot verify compressed file")
 		}
